@@ -2,7 +2,7 @@ package main
 
 // Area "walk": the built-in directory walker (Reader.readFiles) on a generated tree.
 //
-//   walk run <file> <dir> <hidden> <follow> <skips> <root> <tree>  => <sorted pushed paths>
+//   walk run <file> <dir> <hidden> <follow> <skips> <root> <tree> [<cwd inside the tree|->]  => <sorted pushed paths>
 //
 //   <tree>  "|"-joined entries, each <kind>:<path bytes ','-joined…> encoded as kind byte followed by the path bytes:
 //           100 ('d') directory, 102 ('f') file, 108 ('l') symlink: path, then 0, then the target (relative to the link's dir)
@@ -46,7 +46,11 @@ func walkEval(op string, a []string) string {
 		}
 	}
 	cwd, _ := os.Getwd()
-	if err := os.Chdir(dir); err != nil {
+	wd := dir
+	if len(a) > 7 && a[7] != "-" {
+		wd = filepath.Join(dir, string(decBytes(a[7])))
+	}
+	if err := os.Chdir(wd); err != nil {
 		panic(err)
 	}
 	defer os.Chdir(cwd)
@@ -129,6 +133,28 @@ func walkGen(r *rand.Rand, count int, emit func(op string, args ...string)) {
 			}
 		}
 		skips := [][]byte{}
+		if r.Intn(6) == 0 { // a path skip next to a directory whose name merely ends with its first component
+			x, y := names[r.Intn(len(names))], names[r.Intn(len(names))]
+			have := map[string]bool{}
+			for _, d := range dirs {
+				have[d] = true
+			}
+			if files[x] || files["baz"+x] || files["sub"] || files[x+"/"+y] {
+				x, y = "tx", "ty" // names that cannot clash with an existing file
+			}
+			for _, d := range []string{x, x + "/" + y, "baz" + x, "baz" + x + "/" + y, "sub", "sub/" + x, "sub/" + x + "/" + y} {
+				if have[d] {
+					continue
+				}
+				have[d] = true
+				dirs = append(dirs, d)
+				entries = append(entries, append([]byte{'d'}, []byte(d)...))
+				if strings.HasSuffix(d, "/"+y) {
+					entries = append(entries, append([]byte{'f'}, []byte(d+"/inside")...))
+				}
+			}
+			skips = append(skips, []byte([]string{x + "/" + y, "/" + x + "/" + y, y}[r.Intn(3)]))
+		}
 		switch r.Intn(5) {
 		case 0:
 			skips = append(skips, []byte(".git"), []byte("node_modules"))
@@ -147,7 +173,31 @@ func walkGen(r *rand.Rand, count int, emit func(op string, args ...string)) {
 		if !file && !dir {
 			file = true
 		}
-		emit("run", itoa(b2i(file)), itoa(b2i(dir)), itoa(b2i(r.Intn(2) == 0)), itoa(b2i(r.Intn(2) == 0)), encStrList(skips), encStr(root), encStrList(entries))
+		cwd := "-"
+		if r.Intn(5) == 0 && len(dirs) > 0 { // run from inside the tree: roots "." and ".."
+			// (not from inside the target of a directory link: fastwalk then refuses to follow that
+			// link, which is the library's loop protection, not fzf's)
+			cands := []string{}
+			for _, d := range dirs {
+				ok := true
+				for _, e := range entries {
+					if e[0] == 'l' {
+						t := strings.SplitN(string(e[1:]), "\x00", 2)[1]
+						if d == t || strings.HasPrefix(d, t+"/") {
+							ok = false
+						}
+					}
+				}
+				if ok {
+					cands = append(cands, d)
+				}
+			}
+			if len(cands) > 0 {
+				cwd = encStr(cands[r.Intn(len(cands))])
+				root = []string{"..", ".", ".."}[r.Intn(3)]
+			}
+		}
+		emit("run", itoa(b2i(file)), itoa(b2i(dir)), itoa(b2i(r.Intn(2) == 0)), itoa(b2i(r.Intn(2) == 0)), encStrList(skips), encStr(root), encStrList(entries), cwd)
 	}
 }
 
